@@ -23,7 +23,7 @@ META = dict(
                   'time.MarshalBinary/UnmarshalBinary/MarshalJSON of Go 1.23 (modelled, compared)',
                   'crypto/sha256 (an executable SHA-256 in Lean is compared end to end; no theorem depends on it)'],
     assumptions=['SHA-256 is treated as a function of its input: hash stability is proved on the hash input',
-                 'json.Unmarshal(json.Marshal(x)) = x for []UserData (SubTransactions), sampled by the searcher',
+                 'encoding/json on SubTransactions is modelled for the []UserData grammar (decode + re-render) and compared; idempotence of that re-render is a hypothesis (SubTxStable) of the tx fixed-point theorem',
                  'producible values: non-nil Transactions/EvictedTxs, non-negative ProveValue, zone offsets whose '
                  'seconds part is not negative and that MarshalBinary accepts, RequestIds keys that JSON writes verbatim'],
     rule='distinct op lines (marshal of a generated value / unmarshal of a byte string) answered by both the '
